@@ -12,6 +12,11 @@ type BitCnt uint16
 // bitMask returns an expression of width w which has ones in positions
 // [0..bits) and zeros in position bits and all bits above.
 func bitMask(bits BitCnt, w expr.Width) expr.Expr {
+	// A mask of more bits than the width has covers the whole value.
+	if max := BitCnt(w.Bits()); bits > max {
+		bits = max
+	}
+
 	// Optimization for those masks we are able to calculate using
 	// in-language features to make the description simpler and possible
 	// further execution faster.
